@@ -169,6 +169,19 @@ const("fm_unwrap_variant", "versatiles_geometry/src/vector_tile/layer.rs", [
     (r"pub fn filter_map_properties.{0,500}?match self\.decode_tag_ids\(&feature\.tag_ids\) \{\s*Ok\(properties\) => filter_fn\(properties\)\.map\(\|properties\| Ok\(\(feature, properties\)\)\),\s*Err\(e\) => Some\(Err\(e\)\),", 1),
 ], "filter_map_properties: 1 = an undecodable feature makes the call return the error; 0 = `.unwrap()`")
 
+# ---- byte layouts of the container formats (C01 / C16 / C12): the models use these numbers as literals; Props/C01.v
+#      proves that the source still says the same ----
+VT = "versatiles_container/src/container/versatiles/"
+PM = "versatiles_container/src/container/pmtiles/"
+const("vt_header_length", VT + "types/file_header.rs", [(r"const HEADER_LENGTH: u64 = (\d+);", num)], "bytes of the versatiles file header")
+const("vt_block_def_length", VT + "types/block_index.rs", [(r"const BLOCK_INDEX_LENGTH: u64 = (\d+);", num)], "bytes of one block definition in the block index")
+const("vt_tile_index_entry_length", VT + "types/tile_index.rs", [(r"const TILE_INDEX_LENGTH: u64 = (\d+);", num)], "bytes of one tile-index entry")
+const("vt_block_grid", VT + "writer.rs", [(r"\.iter_bbox_grid\((\d+)\)", num)], "writer: edge length of a block in tiles")
+const("vt_block_shift", VT + "reader.rs", [(r"coord\.x\.shr\((\d+)\),\s*coord\.y\.shr\(\1\)", num)], "reader: block coordinate = tile coordinate >> shift")
+const("pm_header_length", PM + "types/header_v3.rs", [(r"pub fn len\(\) -> u64 \{\s*(\d+)\s*\}", num)], "bytes of the PMTiles header")
+const("pm_metadata_position", PM + "writer.rs", [(r"writer\.set_position\((\d+)\)\?;\s*let mut header = HeaderV3::from_parameters", num)], "writer: the metadata starts here; header and root directory lie in front of it")
+const("pm_root_area_end", PM + "writer.rs", [(r"entries\.as_directory\((\d+) - HeaderV3::len\(\)", num)], "writer: the root directory budget is this minus the header length")
+
 def main():
     out = ["(* GENERATED by tools/scrape_constants.py from /repo — do not edit *)",
            "From Coq Require Import NArith.", "Local Open Scope N_scope.", ""]
